@@ -19,7 +19,13 @@ def main():
             if s.count(m["old"]) != 1:
                 print(m["id"], "ANCHOR-LOST", s.count(m["old"]))
                 continue
-            open(p, "w").write(s.replace(m["old"], m["new"]))
+            s = s.replace(m["old"], m["new"])
+            if "also" in m:
+                if s.count(m["also"]["old"]) != 1:
+                    print(m["id"], "ANCHOR-LOST (also)")
+                    continue
+                s = s.replace(m["also"]["old"], m["also"]["new"])
+            open(p, "w").write(s)
             out = {}
             for prop in m["props"]:
                 env = dict(os.environ, VERIF_REPO=d, VERIF_NO_EVIDENCE="1")
